@@ -113,6 +113,9 @@ pub enum Edit {
     /// `Module::add_import_{func,global,memory,table}` on a module that already has local items of that kind
     /// (the parser always creates imports first; the API does not ask for that), optionally exported
     AddImportLate { kind: u8, export: bool, flavour: u8 },
+    /// attach a user-defined custom section that roots the `pick`-th function (`CustomSection::add_gc_roots`)
+    /// and emits its index
+    AddRootSection { pick: u32 },
     RenameFunc { pick: u32, name: Option<String> },
     RenameModule { name: Option<String> },
     RenameLocal { pick: u32, name: Option<String> },
@@ -183,6 +186,7 @@ impl Op {
                 Edit::InsertTerminator { .. } => "edit_insert_terminator",
                 Edit::InsertViaBlockMut { .. } => "edit_insert_via_block_mut",
                 Edit::AddImportLate { .. } => "edit_add_import_late",
+                Edit::AddRootSection { .. } => "edit_add_root_section",
                 Edit::VisitMutPass { .. } => "edit_visitor_mut_pass",
                 Edit::RenameFunc { .. } => "edit_rename_func",
                 Edit::RenameModule { .. } => "edit_rename_module",
